@@ -116,7 +116,10 @@ pub fn make_session(keys: &crate::refcodec::SessionKeys, fcnt_up: u32, fcnt_down
         None => serde_json::Value::Null,
     };
     // through the text form: the entry point every application uses
-    serde_json::from_str(&serde_json::to_string(&v).expect("value serialises")).expect("patched session deserialises")
+    match serde_json::from_str(&serde_json::to_string(&v).expect("value serialises")) {
+        Ok(s) => s,
+        Err(e) => panic!("{}: a session document with fcnt_up={fcnt_up} fcnt_down={fcnt_down:?} was refused: {e}", simcore::SETUP_REFUSED),
+    }
 }
 
 /// Deserialise a stored session; a panic inside the deserialiser is reported as `Err("PANIC ...")`.
